@@ -220,21 +220,38 @@ theorem nonceXChaCha_injective {a b : UInt64} (h : Real.nonceXChaCha a = Real.no
     a = b :=
   le64_injective (List.append_cancel_left h)
 
-/-- The AEAD wrappers of the default and ring resolvers call the primitive with exactly
-    `(key, layout n, ad, data)`: no other transformation of the arguments. (In the Lean
-    suite this is by definition; the tie to the Rust wrappers is the differential test.) -/
-theorem wrapper_enc_dec (k : Bytes) (n : UInt64) (ad d : Bytes) :
-    ((Real.cipherImpl .default 0).enc k n ad d = Crypto.ChaChaPoly.aeadEncrypt k (Real.nonceChaCha n) ad d
-      ∧ (Real.cipherImpl .default 0).dec k n ad d = Crypto.ChaChaPoly.aeadDecrypt k (Real.nonceChaCha n) ad d)
-    ∧ ((Real.cipherImpl .default 1).enc k n ad d = Crypto.ChaChaPoly.xaeadEncrypt k (Real.nonceXChaCha n) ad d
-      ∧ (Real.cipherImpl .default 1).dec k n ad d = Crypto.ChaChaPoly.xaeadDecrypt k (Real.nonceXChaCha n) ad d)
-    ∧ ((Real.cipherImpl .default 2).enc k n ad d = Crypto.AesGcm.gcmEncrypt k (Real.nonceGcm n) ad d
-      ∧ (Real.cipherImpl .default 2).dec k n ad d = Crypto.AesGcm.gcmDecrypt k (Real.nonceGcm n) ad d)
-    ∧ ((Real.cipherImpl .ring 0).enc k n ad d = Crypto.ChaChaPoly.aeadEncrypt k (Real.nonceChaCha n) ad d
-      ∧ (Real.cipherImpl .ring 0).dec k n ad d = Crypto.ChaChaPoly.aeadDecrypt k (Real.nonceChaCha n) ad d)
-    ∧ ((Real.cipherImpl .ring 2).enc k n ad d = Crypto.AesGcm.gcmEncrypt k (Real.nonceGcm n) ad d
-      ∧ (Real.cipherImpl .ring 2).dec k n ad d = Crypto.AesGcm.gcmDecrypt k (Real.nonceGcm n) ad d) :=
-  ⟨⟨rfl, rfl⟩, ⟨rfl, rfl⟩, ⟨rfl, rfl⟩, ⟨rfl, rfl⟩, ⟨rfl, rfl⟩⟩
+/-- The AEAD wrappers of the default and ring resolvers are the stream+MAC construction over the
+    reference keystream and the reference tag function, and those are called with exactly
+    `(key, layout n, ...)`: the reference stream cipher on `len` zero bytes (ChaCha20 from block
+    counter 1, AES-256 GCTR from counter block `IV ‖ 2`) and the reference tag over `(ad, ct)`;
+    `fit` only fixes the output length. ring and default use the same functions.
+    (In the Lean suite this is by definition; the tie to the Rust wrappers, and to the
+    references' own one-piece `aeadEncrypt`/`gcmEncrypt`, is the differential test and
+    `Real.wrapperSelfTest`. The laws these wrappers satisfy are in `Theorems/C18Real.lean`.) -/
+theorem wrapper_enc_dec (k : Bytes) (n : UInt64) (ad d : Bytes) (len : Nat) :
+    ((Real.cipherImpl .default 0).enc k n ad d = smEnc Real.ksChaCha Real.macChaCha k n ad d
+      ∧ (Real.cipherImpl .default 0).dec k n ad d = smDec Real.ksChaCha Real.macChaCha k n ad d)
+    ∧ ((Real.cipherImpl .default 1).enc k n ad d = smEnc Real.ksXChaCha Real.macXChaCha k n ad d
+      ∧ (Real.cipherImpl .default 1).dec k n ad d = smDec Real.ksXChaCha Real.macXChaCha k n ad d)
+    ∧ ((Real.cipherImpl .default 2).enc k n ad d = smEnc Real.ksGcm Real.macGcm k n ad d
+      ∧ (Real.cipherImpl .default 2).dec k n ad d = smDec Real.ksGcm Real.macGcm k n ad d)
+    ∧ ((Real.cipherImpl .ring 0).enc k n ad d = smEnc Real.ksChaCha Real.macChaCha k n ad d
+      ∧ (Real.cipherImpl .ring 0).dec k n ad d = smDec Real.ksChaCha Real.macChaCha k n ad d)
+    ∧ ((Real.cipherImpl .ring 2).enc k n ad d = smEnc Real.ksGcm Real.macGcm k n ad d
+      ∧ (Real.cipherImpl .ring 2).dec k n ad d = smDec Real.ksGcm Real.macGcm k n ad d)
+    ∧ Real.ksChaCha k n len
+        = fit len (Crypto.ChaChaPoly.chacha20Xor k (Real.nonceChaCha n) 1 (zeros len))
+    ∧ Real.macChaCha k n ad d
+        = fit 16 (Crypto.ChaChaPoly.toList (Crypto.ChaChaPoly.aeadTagBA (Crypto.ChaChaPoly.ofList k)
+            (Crypto.ChaChaPoly.ofList (Real.nonceChaCha n)) (Crypto.ChaChaPoly.ofList ad)
+            (Crypto.ChaChaPoly.ofList d)))
+    ∧ Real.ksGcm k n len
+        = fit len (Crypto.AesGcm.gctr (Crypto.AesGcm.expandKey ⟨(fit 32 k).toArray⟩)
+            ⟨(Real.nonceGcm n).toArray⟩ ⟨(zeros len).toArray⟩).data.toList
+    ∧ Real.macGcm k n ad d
+        = fit 16 (Crypto.AesGcm.computeTag (Crypto.AesGcm.expandKey ⟨(fit 32 k).toArray⟩)
+            ⟨(Real.nonceGcm n).toArray⟩ ⟨ad.toArray⟩ ⟨d.toArray⟩).data.toList :=
+  ⟨⟨rfl, rfl⟩, ⟨rfl, rfl⟩, ⟨rfl, rfl⟩, ⟨rfl, rfl⟩, ⟨rfl, rfl⟩, rfl, rfl, rfl, rfl⟩
 
 /-! ## 5. AEADs of the shape "keystream xor, then MAC over the ciphertext" -/
 
